@@ -15,12 +15,12 @@ def _self_field(place):
     return None
 
 
-def direct_effects(fn):
+def direct_effects(fn, root=1):
     """(writes, reads, calls_on_self) for one body.  A `&mut self.f` borrow counts as a write of f."""
     w, r = set(), set()
     b = Body(fn)
     # locals that alias self (reborrows)
-    selfs = {1}
+    selfs = {root}
     changed = True
     while changed:
         changed = False
